@@ -10,6 +10,7 @@ Structural clauses decided (DESIGN.md §5 C10):
 """
 from ..engine import cfg as C
 from ..engine import q as Q
+from . import _workers as W
 from ..engine import terms as T
 from ..engine.facts import AnchorMissing, callee_of
 from . import C18 as K18
@@ -110,6 +111,9 @@ def rule_workers(ctx):
             ctx.check(okd and len(pushes) >= 2, "R3", fam + ":worker_loop:batch", "batch filled by push, consumed by drain(..)",
                       "batch is not consumed front-to-back by drain(..)", ctx.loc(wl))
         # every received packet reaches process_packet: the Ok payload of recv flows into process_packet or the batch
+        W.received_consumed(ctx, P, fam, wl, "R3")
+        W.uniform_workers(ctx, P, [c for c, f in CRATES.items() if f == fam][0], fam, "R2")
+        W.state_retained(ctx, P, [c for c, f in CRATES.items() if f == fam][0], fam, "R2", {"tcp": 0, "http": 2, "tls": 2}[fam])
         # R4 same pipeline
         def skeleton(b):
             out = []
